@@ -203,7 +203,52 @@ fn make_cold_compaction_script(seed: u64) -> Script {
     Script { cfg, pool, ops, arm_at: Some(arm_at), short_writes: false, replay_on_shipped_file_systems: false, arm_on_note: None }
 }
 
+/// A write-ahead log that goes on living after a failed call: the memtable budget is large enough
+/// that nothing rotates, the fault is armed for one write in the middle of the session (every call
+/// that write makes, transient or sticky, every other failing write a short one), and the session
+/// continues with puts, deletes, batches and reads into the same log. Whatever the later calls were
+/// told must be true after the reopen: bytes left behind by the failed append must not take
+/// acknowledged records behind them out of reach.
+fn make_midlife_wal_fault_script(seed: u64) -> Script {
+    let mut rng = Rng::new(mix(&[seed], "c08-midlife-wal"));
+    let cfg = Config { memtable: 1 << 20, file: 2 << 20, block: 4096, reuse: rng.chance(0.5) };
+    let pool = gen::key_pool(&mut rng, KeyFamily::Ascii, 30);
+    let mut ops = vec![];
+    let mut counter = 0u64;
+    let some_write = |rng: &mut Rng, counter: &mut u64| -> ScriptOp {
+        *counter += 1;
+        let roll = rng.below(10);
+        if roll < 6 {
+            let len = rng.range(20, 400) as usize;
+            ScriptOp::Write(vec![(rng.pick(&pool).clone(), Some(gen::tagged_value(rng, &format!("v{counter}:"), len)))])
+        } else if roll < 8 {
+            ScriptOp::Write(vec![(rng.pick(&pool).clone(), None)])
+        } else {
+            let n = rng.range(2, 6);
+            ScriptOp::Write((0..n).map(|i| (pool[((*counter + i) % 30) as usize].clone(), Some(gen::tagged_value(rng, &format!("b{counter}.{i}:"), 40)))).collect())
+        }
+    };
+    for _ in 0..rng.range(5, 40) {
+        ops.push(some_write(&mut rng, &mut counter));
+    }
+    let arm_at = ops.len();
+    // the armed write: sometimes larger than a log block, so that it is written as several fragments
+    counter += 1;
+    let len = if rng.chance(0.3) { rng.range(33_000, 70_000) as usize } else { rng.range(20, 400) as usize };
+    ops.push(ScriptOp::Write(vec![(rng.pick(&pool).clone(), Some(gen::tagged_value(&mut rng, &format!("v{counter}:"), len)))]));
+    for i in 0..rng.range(20, 60) {
+        ops.push(some_write(&mut rng, &mut counter));
+        if i % 5 == 4 {
+            ops.push(ScriptOp::Get(rng.pick(&pool).clone()));
+        }
+    }
+    Script { cfg, pool, ops, arm_at: Some(arm_at), short_writes: false, replay_on_shipped_file_systems: false, arm_on_note: None }
+}
+
 fn make_script(history: u64, seed: u64, n_ops: usize) -> Script {
+    if history == 6 {
+        return make_midlife_wal_fault_script(seed);
+    }
     if history == 4 {
         return make_long_wal_script(seed);
     }
@@ -341,13 +386,18 @@ fn run_script(out: &mut CaseOut, script: &Script, fault: Option<Fault>, ctx: &se
         fs.arm_fault(fault.clone());
     }
     let phase_seen = std::sync::Arc::new(std::sync::atomic::AtomicU64::new(0));
+    // false once the fault has been taken away for good: a phase that begins later must not arm it again
+    let arming_allowed = std::sync::Arc::new(parking_lot::Mutex::new(true));
     if let (Some((note, phase, k)), Some(f)) = (script.arm_on_note, fault.clone()) {
         // the note is emitted by the thread that is about to do the phase's file-system calls (under
         // the database mutex), so 'the n-th such call after the note' is a position inside that phase
-        let (fs2, seen) = (fs.clone(), std::sync::Arc::clone(&phase_seen));
+        let (fs2, seen, allowed) = (fs.clone(), std::sync::Arc::clone(&phase_seen), std::sync::Arc::clone(&arming_allowed));
         d.on_note(note, std::sync::Arc::new(move |args: &[u64]| {
             if phase_matches(phase, args) && seen.fetch_add(1, std::sync::atomic::Ordering::SeqCst) + 1 == k {
-                fs2.arm_fault(Some(f.clone()));
+                let allowed = allowed.lock();
+                if *allowed {
+                    fs2.arm_fault(Some(f.clone()));
+                }
             }
         }));
     }
@@ -373,6 +423,7 @@ fn run_script(out: &mut CaseOut, script: &Script, fault: Option<Fault>, ctx: &se
             }
         }
         // the fault keeps the database from opening: remove it, then it must open
+        *arming_allowed.lock() = false;
         fs.arm_fault(None);
         match sess.open() {
             Ok(()) => true,
@@ -435,6 +486,7 @@ fn run_script(out: &mut CaseOut, script: &Script, fault: Option<Fault>, ctx: &se
     let (fired, _) = fs.fault_fired();
     out.add("faults_fired", (fired > 0) as u64);
     // the fault is gone; reopen and judge the durable state
+    *arming_allowed.lock() = false;
     fs.arm_fault(None);
     sess.close();
     if let Err(e) = sess.open() {
@@ -1055,8 +1107,9 @@ pub fn run_case(tier: &str, seed: u64, idx: u64) -> CaseOut {
     }
     let idx = idx - idx / GROUP_EVERY;
     // every 16th case runs the long-WAL script (history 4), the others rotate over scripts 0-3
-    let (history, j) = if idx % 16 == 15 { (4, idx / 16) } else if idx % 16 == 7 { (5, idx / 16) } else { (idx % HISTORIES, idx / HISTORIES) };
-    let mut script = make_script(history, seed, if tier == "quick" { 150 } else { 220 });
+    let (history, j) = if idx % 16 == 15 { (4, idx / 16) } else if idx % 16 == 7 { (5, idx / 16) } else if idx % 16 == 11 { (6, idx / 16) } else { (idx % HISTORIES, idx / HISTORIES) };
+    // the mid-life script is drawn anew for every few cases (its window is a single write)
+    let mut script = make_script(history, if history == 6 { mix(&[seed, j / 6], "c08-midlife-seed") } else { seed }, if tier == "quick" { 150 } else { 220 });
     // pilot: no fault, classify the call stream
     let mut pilot_out = CaseOut::new();
     let pilot = run_script(&mut pilot_out, &script, None, &json!({"pilot": true}));
@@ -1069,7 +1122,7 @@ pub fn run_case(tier: &str, seed: u64, idx: u64) -> CaseOut {
         return out;
     }
     let pilot = pilot.unwrap();
-    let pos = if history == 5 {
+    let pos = if history == 5 || history == 6 {
         // every call made during the armed compaction
         let mut v = vec![];
         for ((kind, class), n) in &pilot.counts {
@@ -1107,7 +1160,7 @@ pub fn run_case(tier: &str, seed: u64, idx: u64) -> CaseOut {
     // the long-WAL script tries every position with a transient fault first (a sticky fault during
     // a reopen mostly just makes the open fail), the other scripts interleave the modes
     let combo = j % (n_pos * 3);
-    let (pos_index, mode_index) = if history >= 4 { (combo % n_pos, combo / n_pos) } else { (combo / 3, combo % 3) };
+    let (pos_index, mode_index) = if history == 6 { (combo % n_pos, (combo / n_pos) % 2 * 2) } else if history >= 4 { (combo % n_pos, combo / n_pos) } else { (combo / 3, combo % 3) };
     let (kind, class, nth) = pos[pos_index as usize];
     let mode = modes[mode_index as usize];
     // (SimFs can also report an error *after* applying a mutating call. That model is not used: a
@@ -1116,7 +1169,7 @@ pub fn run_case(tier: &str, seed: u64, idx: u64) -> CaseOut {
     let after_effect = false;
     let fault = Fault { kind, class, nth, mode, after_effect };
     // every other write fault is a short write: half of the bytes reach the file before the error
-    script.short_writes = kind == OpKind::Write && (idx / 3) % 2 == 1;
+    script.short_writes = kind == OpKind::Write && if history == 6 { j % 2 == 0 } else { (idx / 3) % 2 == 1 };
     script.replay_on_shipped_file_systems = history != 4 && idx % 2 == 0;
     let short_writes = script.short_writes;
     let ctx = json!({"history": history, "failing_write_is_short": short_writes, "config": script.cfg.describe(), "fault": {"call": kind.name(), "on": class.name(), "occurrence": nth,
